@@ -1170,17 +1170,28 @@ func ruleEngine(c *Ctx) {
 		c.R.Anchor("yae.Expr.makeSureInit")
 		return
 	}
+	// the guard flag is whichever bool field of the engine is tested first and set last (identified by object, not by name)
 	okFirst := false
+	var flag types.Object
 	if len(msi.Body.List) > 0 {
-		if is, ok := msi.Body.List[0].(*ast.IfStmt); ok && strings.HasSuffix(src(is.Cond), ".init") && len(is.Body.List) == 1 {
-			if _, isRet := is.Body.List[0].(*ast.ReturnStmt); isRet {
-				okFirst = true
+		if is, ok := msi.Body.List[0].(*ast.IfStmt); ok && is.Init == nil && is.Else == nil && len(is.Body.List) == 1 {
+			if se, ok := unparen(is.Cond).(*ast.SelectorExpr); ok && typeStr(c.typeOf(se.X)) == "*yae.Expr" && typeStr(c.typeOf(se)) == "bool" {
+				if _, isRet := is.Body.List[0].(*ast.ReturnStmt); isRet {
+					okFirst = true
+					flag = c.objOf(se.Sel)
+				}
 			}
 		}
 	}
 	c.R.Check(okFirst, "yae.Expr.makeSureInit", "first statement is `if e.init { return }`", msi.Pos(), "initialisation runs once", "initialisation is not guarded by the init flag")
-	last := msi.Body.List[len(msi.Body.List)-1]
-	okLast := c.sxN(msi, last) == "(AssignStmt Lhs:[(SelectorExpr $r Sel:init)] Tok:= Rhs:[true])"
+	okLast := false
+	if as, ok := msi.Body.List[len(msi.Body.List)-1].(*ast.AssignStmt); ok && len(as.Lhs) == 1 && len(as.Rhs) == 1 && as.Tok == token.ASSIGN {
+		if se, ok := unparen(as.Lhs[0]).(*ast.SelectorExpr); ok && flag != nil && c.objOf(se.Sel) == flag {
+			if v := c.constOf(as.Rhs[0]); v != nil && v.Kind() == constant.Bool && constant.BoolVal(v) {
+				okLast = true
+			}
+		}
+	}
 	c.R.Check(okLast, "yae.Expr.makeSureInit", "`e.init = true` is the last statement", msi.Pos(), "flag set after the tables are complete", "the init flag is set before initialisation finished (or never)")
 	// writers of Expr fields
 	pk := c.Mod["yae"]
@@ -1243,7 +1254,7 @@ func ruleEngine(c *Ctx) {
 			continue
 		}
 		for _, call := range c.callsTo(fd.Body, "parser/oper.Sort") {
-			if _, isParam := c.objOf(call.Args[0]).(*types.Var); isParam && src(call.Args[0]) == "ops" {
+			if _, isParam := c.objOf(call.Args[0]).(*types.Var); isParam && typeStr(c.typeOf(call.Args[0])) == "[]parser/oper.Operator" {
 				c.R.OK(fn.sp+"."+fn.f, "oper.Sort(ops) on the engine's operator slice", call.Pos(), "frozen: the slice belongs to the engine (EFFECT-2 shows it is never a process-global table); after the first compilation it is sorted, and a stable insertion/merge sort of a sorted slice performs comparisons only")
 			}
 		}
